@@ -67,3 +67,57 @@ void leg_feed(const std::vector<uint8_t> &stream, unsigned cap, std::string &sts
     }
     free(base);
 }
+
+// ---- round 3: one LONG-LIVED legacy receiver struct (sessions), encoder into a caller's buffer, type widths ----
+static struct gstuff_autorecv_v1 g_leg;      // zero-initialised: state 0, no buffer
+void leg_sess_start() { memset(&g_leg, 0, sizeof g_leg); }
+void leg_sess_setbuf(uint8_t *blk, unsigned cap) { gstuff_autorecv_setbuf_v1(&g_leg, blk, (int)cap); }
+void leg_sess_reset() { gstuff_autorecv_reset_v1(&g_leg); }
+size_t leg_sess_size() { return (size_t)sline_size(&g_leg.line); }
+// feed; `can_read`: a buffer of at least 1 byte is attached (sline_getline writes the terminator)
+void leg_sess_feed(const std::vector<uint8_t> &stream, bool can_read, std::string &sts,
+                   std::vector<std::vector<uint8_t>> &packets, size_t *maxsize)
+{
+    for (uint8_t b : stream)
+    {
+        int s = gstuff_autorecv_newchar_v1(&g_leg, (char)b);
+        char ch = '?';
+        switch (s)
+        {
+        case GSTUFF_CONTINUE_V1: ch = 'C'; break;
+        case GSTUFF_NEWPACKAGE_V1: ch = 'N'; break;
+        case GSTUFF_CRC_ERROR_V1: ch = 'c'; break;
+        case GSTUFF_OVERFLOW_V1: ch = 'O'; break;
+        case GSTUFF_DATA_ERROR_V1: ch = 'S'; break;
+        }
+        sts.push_back(ch);
+        if (maxsize && (size_t)sline_size(&g_leg.line) > *maxsize) *maxsize = (size_t)sline_size(&g_leg.line);
+        if (s == GSTUFF_NEWPACKAGE_V1 && can_read)
+        {
+            int n = sline_size(&g_leg.line);
+            const char *l = sline_getline(&g_leg.line);
+            std::vector<uint8_t> raw((const uint8_t *)l, (const uint8_t *)l + n);
+            if (n > 0) raw.pop_back();
+            packets.push_back(raw);
+        }
+    }
+}
+// gstuffing_v1 into the caller's (re-used) buffer; returns the int the encoder returned
+int leg_encode_into(const std::vector<uint8_t> &p, uint8_t *out)
+{
+    char *in = (char *)malloc(p.size() ? p.size() : 1);
+    if (p.size()) memcpy(in, p.data(), p.size());
+    int n = gstuffing_v1(in, (int)p.size(), (char *)out);
+    free(in);
+    return n;
+}
+// sizeof: return type and `size` parameter of gstuffing_v1, crc and state fields of the receiver struct
+template <class R, class A, class B, class C> static size_t ret_size(R (*)(A, B, C)) { return sizeof(R); }
+template <class R, class A, class B, class C> static size_t arg2_size(R (*)(A, B, C)) { return sizeof(B); }
+void leg_sizes(size_t out[4])
+{
+    out[0] = ret_size(&gstuffing_v1);
+    out[1] = arg2_size(&gstuffing_v1);
+    out[2] = sizeof(((struct gstuff_autorecv_v1 *)0)->crc);
+    out[3] = sizeof(((struct gstuff_autorecv_v1 *)0)->state);
+}
